@@ -32,9 +32,10 @@ const (
 	opLock   // Mutex.Lock / RWMutex.Lock
 	opRLock  // RWMutex.RLock
 	opShared // access to a shared package-level variable, or a sync/atomic operation
+	opObject // operation on a named object (e.g. a Write to the output): ordered against the other operations on that object only
 )
 
-var kindName = [...]string{"send", "recv", "select", "close", "wgwait", "choice", "lock", "rlock", "shared"}
+var kindName = [...]string{"send", "recv", "select", "close", "wgwait", "choice", "lock", "rlock", "shared", "object"}
 
 // SelCase describes one communication clause of a select (or the single operand of a send/recv).
 type SelCase struct {
@@ -144,6 +145,7 @@ type Result struct {
 	Points  []Point
 	Steps   int
 	Blocked []string // on deadlock: "<goroutine id> <op> @<site>" of everything parked
+	Leftover []string // same, for the goroutines still parked when the body returned
 	Spawned int
 	Goroutines []string // hierarchical ids of every goroutine of the run
 }
@@ -282,6 +284,17 @@ func Shared(site string) {
 		return
 	}
 	s.park(g, &op{kind: opShared, site: site})
+}
+
+// Object is a scheduling point before an operation on a named object outside the program's own
+// synchronisation (the harness uses it for Writes to the command's output): operations on one object are
+// totally ordered among themselves and independent of everything else.
+func Object(name, site string) {
+	s, g := me()
+	if s == nil {
+		return
+	}
+	s.park(g, &op{kind: opObject, site: site, obj: name})
 }
 
 // After wraps a value-returning sync/atomic call: a scheduling point after the operation.
@@ -612,7 +625,7 @@ func (s *Sched) enabled() []transition {
 			if l := s.lk(o.obj); !l.writer {
 				ts = append(ts, transition{g: g})
 			}
-		case opClose, opShared:
+		case opClose, opShared, opObject:
 			ts = append(ts, transition{g: g})
 		case opSend, opRecv, opSelect:
 			any := false
@@ -813,6 +826,11 @@ func RunStarving(prefix []int, starve string, ncpu int, body func()) *Result {
 			if mainDone {
 				s.res.Outcome = "returned"
 			}
+			for _, g := range s.ordered() {
+				if !g.done && g.pend != nil {
+					s.res.Leftover = append(s.res.Leftover, g.id+" "+kindName[g.pend.kind]+" @"+g.pend.site)
+				}
+			}
 			break
 		}
 		// eager local choices (they commute with everything else)
@@ -894,6 +912,12 @@ func RunStarving(prefix []int, starve string, ncpu int, body func()) *Result {
 			g.clock[g.num]++
 			st.clock = g.clock.copy()
 			s.event(g, opClose, o.site, 0, 0, 0)
+		case opObject:
+			l := s.lk(o.obj)
+			g.clock.join(l.clock)
+			g.clock[g.num]++
+			l.clock = g.clock.copy()
+			s.event(g, opObject, o.site, 0, 0, 0)
 		case opShared:
 			// global barrier: ordered against every event of every goroutine, before and after
 			for _, h := range s.gs {
